@@ -345,9 +345,6 @@ Qed.
 (* ------------------------------------------------------------------------------------------------ *)
 (** * load_routing_table_entries *)
 
-Definition alloc_item (x y app_id count base : Z) : titem :=
-  TScp x y lrte_alloc_p lrte_alloc_cmd (lrte_alloc_arg1 app_id count) (lrte_alloc_arg2 app_id count) 0 base.
-
 (* allocation refused: the router error, nothing but the allocation command was issued, the chip is in
    the state it was in (router, free list, memory) *)
 Theorem load_alloc_failure : forall m es x y app_id cs cs1,
@@ -453,10 +450,6 @@ Proof.
   unfold render_slots in *. cbn [flat_map]. rewrite app_length, render_slot_length, IH. cbn [length]. lia.
 Qed.
 
-(* what unpack_routing_table_entry makes of 16 bytes *)
-Definition decode_bytes (bs : list Z) : option (entry * Z * Z) :=
-  match unpack_entry bs with Ok v => v | _ => None end.
-
 Lemma unpack_entry_16 : forall bs, length bs = 16%nat -> unpack_entry bs = Ok (decode_bytes bs).
 Proof.
   intros bs H. unfold decode_bytes, unpack_entry.
@@ -471,10 +464,6 @@ Proof.
   induction l as [|s l IH]; [reflexivity|].
   cbn [map unpack_all]. rewrite unpack_entry_16 by apply render_slot_length. rewrite IH. reflexivity.
 Qed.
-
-Definition readback_trace (x y : Z) (cs : chipstate) : list titem :=
-  [TRead x y 0 sv_rtr_copy_addr sv_field_size (cksum (le_bytes 4 (cs_rtr_copy cs)));
-   TRead x y 0 (cs_rtr_copy cs) 16384 (cksum (render_slots (cs_slots cs)))].
 
 (* reading back: one decoded item per router entry, in order *)
 Theorem read_back : forall m x y cs,
@@ -544,9 +533,10 @@ Proof.
   change (nth urte_pos_mask [0; app_id; route_word (e_route e); e_key e; e_mask e] 0) with (e_mask e).
   rewrite unused_small by exact Hw.
   exists (decode_word (route_word (e_route e))). split; [|split].
-  - f_equal. f_equal; [f_equal|].
-    + unfold urte_app_id. apply land_small_255. exact Ha.
-    + unfold urte_core. rewrite shr_small by (change (2 ^ 8) with 256; lia). reflexivity.
+  - assert (E1 : urte_app_id app_id = app_id) by (unfold urte_app_id; apply land_small_255; exact Ha).
+    assert (E2 : urte_core app_id = 0).
+    { unfold urte_core. rewrite shr_small by (change (2 ^ 8) with 256; lia). reflexivity. }
+    rewrite E1, E2. unfold decode_word. reflexivity.
   - destruct (decode_word_sorted (route_word (e_route e))) as [l [<- Hnd]]. exact Hnd.
   - apply decode_route_word. exact Hr.
 Qed.
@@ -576,4 +566,98 @@ Proof.
     + rewrite nth_error_map. rewrite (Hinst i e Hi). reflexivity.
     + apply decode_loaded; [|exact Happ].
       rewrite Forall_forall in Hes. apply Hes. eapply nth_error_In. exact Hi.
+Qed.
+
+(* ------------------------------------------------------------------------------------------------ *)
+(** * load_routing_tables: one chip after the other *)
+
+Lemma grantable_ext : forall m m1 c es,
+  cassoc c m1 = cassoc c m -> grantable m c es -> grantable m1 c es.
+Proof.
+  intros m m1 c es E [cs [cs1 [base [H1 H]]]]. exists cs, cs1, base. rewrite E. split; [exact H1|exact H].
+Qed.
+
+Theorem load_tables_success : forall tables m app_id,
+  NoDup (map fst tables) -> 0 <= app_id < 256 ->
+  (forall c es, In (c, es) tables -> grantable m c es) ->
+  exists m' tr,
+    load_routing_tables m tables app_id = (LOk, m', tr)
+    /\ (forall c es, In (c, es) tables -> table_installed m m' app_id c es)
+    /\ (forall c, ~ In c (map fst tables) -> cassoc c m' = cassoc c m).
+Proof.
+  induction tables as [|[[x y] es] rest IH]; intros m app_id Hnd Happ Hall.
+  - exists m, []. split; [reflexivity|]. split; [intros c es []|intros c _; reflexivity].
+  - cbn [map fst] in Hnd. inversion Hnd as [|? ? Hnin Hnd']; subst.
+    destruct (Hall (x, y) es (or_introl eq_refl)) as [cs [cs1 [base [Hc [Hok [Hes [Hbuf [Ha Hb]]]]]]]].
+    destruct (load_success m es x y app_id cs cs1 base Hc Hok Hes Happ Hbuf Ha Hb)
+      as [m1 [cs' [data [Hload [_ [Hc' [Hoth [_ [_ [Hinst [Hunch _]]]]]]]]]]].
+    assert (Hrest : forall c es0, In (c, es0) rest -> grantable m1 c es0).
+    { intros c es0 Hin. apply (grantable_ext m m1).
+      - apply Hoth. intros ->. apply Hnin. apply in_map_iff. exists ((x, y), es0). split; [reflexivity|exact Hin].
+      - apply Hall. right. exact Hin. }
+    destruct (IH m1 app_id Hnd' Happ Hrest) as [m' [tr [Hl [Hinst' Hother']]]].
+    eexists. eexists. split.
+    + cbn [load_routing_tables fst snd]. rewrite Hload, Hl. reflexivity.
+    + split.
+      * intros c es0 [Heq|Hin].
+        -- injection Heq as <- <-. exists cs, cs1, base, cs'.
+           split; [exact Hc|]. split; [exact Ha|]. split; [exact Hb|].
+           split; [rewrite (Hother' (x, y) Hnin); exact Hc'|]. split; assumption.
+        -- destruct (Hinst' c es0 Hin) as [cs0 [cs01 [base0 [cs0' [G1 G]]]]].
+           exists cs0, cs01, base0, cs0'. split; [|exact G].
+           rewrite <- G1. symmetry. apply Hoth. intros ->. apply Hnin.
+           apply in_map_iff. exists ((x, y), es0). split; [reflexivity|exact Hin].
+      * intros c Hc2. cbn [map fst] in Hc2.
+        rewrite Hother' by (intros H; apply Hc2; right; exact H).
+        apply Hoth. intros ->. apply Hc2. left. reflexivity.
+Qed.
+
+(* the first chip whose allocation is refused ends the loop: the router error for that chip; the chips
+   before it are loaded; that chip and every chip not before it are exactly as they were *)
+Theorem load_tables_first_failure : forall pre m app_id x y es rest cs cs1,
+  NoDup (map fst (pre ++ ((x, y), es) :: rest)) -> 0 <= app_id < 256 ->
+  (forall c es0, In (c, es0) pre -> grantable m c es0) ->
+  cassoc (x, y) m = Some cs -> chip_ok cs -> rtr_alloc cs (len es) = (cs1, 0) ->
+  exists m' tr,
+    load_routing_tables m (pre ++ ((x, y), es) :: rest) app_id = (LRouterError (len es) x y, m', tr)
+    /\ (forall c es0, In (c, es0) pre -> table_installed m m' app_id c es0)
+    /\ (forall c, ~ In c (map fst pre) -> cassoc c m' = cassoc c m).
+Proof.
+  induction pre as [|[[x0 y0] es0] pre IH]; intros m app_id x y es rest cs cs1 Hnd Happ Hall Hc Hok Ha.
+  - destruct (load_alloc_failure m es x y app_id cs cs1 Hc Hok Ha) as [m' [Hl [Hc' Hoth]]].
+    exists m'. eexists. split.
+    + cbn [app load_routing_tables fst snd]. rewrite Hl. reflexivity.
+    + split; [intros c es0 []|].
+      intros c _. destruct (chip_eqb c (x, y)) eqn:E.
+      * apply chip_eqb_eq in E. subst c. rewrite Hc', Hc. reflexivity.
+      * apply Hoth. intros ->. rewrite chip_eqb_refl in E. discriminate.
+  - cbn [app map fst] in Hnd. inversion Hnd as [|? ? Hnin Hnd']; subst.
+    destruct (Hall (x0, y0) es0 (or_introl eq_refl)) as [cs0 [cs01 [base [Hc0 [Hok0 [Hes [Hbuf [Ha0 Hb]]]]]]]].
+    destruct (load_success m es0 x0 y0 app_id cs0 cs01 base Hc0 Hok0 Hes Happ Hbuf Ha0 Hb)
+      as [m1 [cs' [data [Hload [_ [Hc' [Hoth [_ [_ [Hinst [Hunch _]]]]]]]]]]].
+    assert (Hne : (x, y) <> (x0, y0)).
+    { intros E. apply Hnin. rewrite map_app, in_app_iff. right. left. cbn [fst]. exact E. }
+    assert (Hpre : forall c es1, In (c, es1) pre -> grantable m1 c es1).
+    { intros c es1 Hin. apply (grantable_ext m m1).
+      - apply Hoth. intros ->. apply Hnin. rewrite map_app, in_app_iff. left.
+        apply in_map_iff. exists ((x0, y0), es1). split; [reflexivity|exact Hin].
+      - apply Hall. right. exact Hin. }
+    assert (Hc1 : cassoc (x, y) m1 = Some cs) by (rewrite Hoth by exact Hne; exact Hc).
+    destruct (IH m1 app_id x y es rest cs cs1 Hnd' Happ Hpre Hc1 Hok Ha) as [m' [tr [Hl [Hinst' Hother']]]].
+    eexists. eexists. split.
+    + cbn [app load_routing_tables fst snd]. rewrite Hload, Hl. reflexivity.
+    + assert (Hx0 : ~ In (x0, y0) (map fst pre)).
+      { intros H. apply Hnin. rewrite map_app, in_app_iff. left. exact H. }
+      split.
+      * intros c es1 [Heq|Hin].
+        -- injection Heq as <- <-. exists cs0, cs01, base, cs'.
+           split; [exact Hc0|]. split; [exact Ha0|]. split; [exact Hb|].
+           split; [rewrite (Hother' (x0, y0) Hx0); exact Hc'|]. split; assumption.
+        -- destruct (Hinst' c es1 Hin) as [d0 [d1 [b0 [d' [G1 G]]]]].
+           exists d0, d1, b0, d'. split; [|exact G].
+           rewrite <- G1. symmetry. apply Hoth. intros ->. apply Hx0.
+           apply in_map_iff. exists ((x0, y0), es1). split; [reflexivity|exact Hin].
+      * intros c Hc2. cbn [map fst] in Hc2.
+        rewrite Hother' by (intros H; apply Hc2; right; exact H).
+        apply Hoth. intros ->. apply Hc2. left. reflexivity.
 Qed.
